@@ -55,3 +55,25 @@ Theorem C03_write_then_read : forall t addr n buf t' ws, areas_wf (t_areas t) ->
   ws = firstn (N.to_nat n) buf.
 Proof. exact block_write_then_read. Qed.
 Print Assumptions C03_write_then_read.
+
+(* ---- translator tie (Gen/RegLeafGen.v is regenerated from src/registers/core.c on every check): the address predicates that
+   the C code evaluates in 32-bit arithmetic are the model's predicates, for every area, register and request inside the 32-bit
+   address space - including those that reach its last address ---- *)
+From Coq Require Import ZArith.
+From Ufw Require Import Base.Cexpr Gen.RegLeafGen Proof.RegLeafT.
+
+Theorem C03_T_address_in_area : forall a e addr n, area_in_space a -> addr < SPACE ->
+  eval (envC a e addr n) tabsC c_ra_addr_is_part_of = b2z (addr_in_area a addr).
+Proof. exact C_ra_addr_is_part_of. Qed.
+Print Assumptions C03_T_address_in_area.
+
+Theorem C03_T_register_overlaps_window : forall a e addr n, entry_in_space e -> window_in_space addr n ->
+  (eval (envC a e addr n) tabsC c_reg_range_touches =? 0)%Z = overlaps e addr n.
+Proof. exact C_reg_range_touches_zero. Qed.
+Print Assumptions C03_T_register_overlaps_window.
+
+Theorem C03_T_register_relative_to_window : forall a e addr n, entry_in_space e -> window_in_space addr n ->
+  eval (envC a e addr n) tabsC c_reg_range_touches =
+    if e_addr e + tsize (e_type e) <=? addr then (-1)%Z else if addr + n <=? e_addr e then 1%Z else 0%Z.
+Proof. exact C_reg_range_touches. Qed.
+Print Assumptions C03_T_register_relative_to_window.
